@@ -373,6 +373,7 @@ type ExecOpts struct {
 	Watch       types.Object // optional: record the expression this local holds when a target executes
 	Record      bool         // record, per complete path, the ordered target hits (ExecResult.Traces)
 	NoTrack     map[types.Object]bool // locals whose value is not tracked in the path store (they keep their name)
+	Unroll      int                   // how many times a path may re-enter a block (inner loops): 0 = back edges to inner headers end the path silently
 }
 
 // Hit is one target execution on a path.
@@ -410,6 +411,7 @@ func (g *Graph) Exec(from Loc, targets []Loc, leaf Leaf, o ExecOpts) ExecResult 
 		hitAll[i] = true
 	}
 	var trace []Hit
+	visits := map[*cfg.Block]int{}
 	complete := func(hit []bool) {
 		res.Paths++
 		if o.Record {
@@ -472,21 +474,23 @@ func (g *Graph) Exec(from Loc, targets []Loc, leaf Leaf, o ExecOpts) ExecResult 
 			if g.IsBackEdge(b, s) {
 				if s == o.Header {
 					complete(hit)
-				} else {
+					return
+				}
+				if visits[s] > o.Unroll {
 					// inner loop: remember hits as "may" but do not count the path
 					for i := range targets {
 						if hit[i] {
 							res.May[i] = true
 						}
 					}
+					return
 				}
-				return
 			}
 			if o.Stops[s] {
 				complete(hit)
 				return
 			}
-			if onPath[s] {
+			if onPath[s] && visits[s] > o.Unroll {
 				return
 			}
 			st2 := store{}
@@ -494,11 +498,16 @@ func (g *Graph) Exec(from Loc, targets []Loc, leaf Leaf, o ExecOpts) ExecResult 
 				st2[k] = v
 			}
 			hit2 := append([]bool(nil), hit...)
+			was := onPath[s]
 			onPath[s] = true
+			visits[s]++
 			tl := len(trace)
 			walk(s, 0, st2, hit2, onPath)
 			trace = trace[:tl]
-			delete(onPath, s)
+			visits[s]--
+			if !was {
+				delete(onPath, s)
+			}
 		}
 		if len(b.Succs) == 1 {
 			follow(b.Succs[0])
